@@ -141,9 +141,15 @@ func nthreadsPlain() int32 { return nthreads }
 // shimmed operation during a run.
 func NoteForeign() {
 	if atomic.LoadInt32(&active) != 0 {
-		atomic.AddInt64(&Foreign, 1)
+		if atomic.AddInt64(&Foreign, 1) == 1 {
+			buf := make([]byte, 4096)
+			ForeignStack.Store(string(buf[:runtime.Stack(buf, false)]))
+		}
 	}
 }
+
+// ForeignStack holds the stack of the first uncontrolled goroutine that performed a shimmed operation during the current run.
+var ForeignStack atomic.Value
 
 // Point is a scheduling point of thread tid before operation op on resource res.
 //
@@ -1041,7 +1047,8 @@ func (e *Explorer) runOne(prefix []int) *Exec {
 	var v *Violation
 	switch {
 	case x.Foreign != 0:
-		v = &Violation{Sig: "harness-foreign-goroutine", Msg: fmt.Sprintf("%d shim operations from uncontrolled goroutines", x.Foreign)}
+		st, _ := ForeignStack.Load().(string)
+		v = &Violation{Sig: "harness-foreign-goroutine", Msg: fmt.Sprintf("%d shim operations from uncontrolled goroutines; first: %s", x.Foreign, st)}
 	case len(x.Panics) > 0:
 		v = &Violation{Sig: "panic", Msg: x.Panics[0]}
 	case x.Deadlock:
